@@ -916,6 +916,10 @@ def writable_statics(b):
                     syms.append(tag)
     shutil_rm(work)
     sync = sorted(u for u in undef if any(k in u for k in ("pthread_mutex", "pthread_once", "pthread_rwlock", "__atomic", "pthread_spin", "call_once", "mtx_")))
+    # library functions whose whole purpose is to change process-wide state (shared mutable memory inside libc)
+    GLOBAL_MUTATORS = {"setlocale", "setenv", "putenv", "unsetenv", "clearenv", "srand", "rand", "srandom", "random", "strtok", "tmpnam",
+                       "signal", "chdir", "umask", "tzset", "setbuf", "setvbuf", "srand48", "drand48", "lrand48", "textdomain"}
+    writable_statics.global_mutators = sorted(undef & GLOBAL_MUTATORS)
     return syms, sync
 
 
@@ -925,6 +929,10 @@ def c14(ctx):
     syms, sync = writable_statics(b)
     ctx.cov["writable_static_storage"] = syms
     ctx.cov["synchronisation_symbols_referenced"] = sync
+    gm = getattr(writable_statics, "global_mutators", [])
+    ctx.cov["process_state_mutators_referenced"] = gm
+    if gm:      # the shared cell then lives in libc: every call is modelled as writing it (same TLC model, cell named after the function)
+        syms = syms + ["libc:" + g for g in gm]
     # design level: all interleavings of overlapping calls; the library's writable static storage is taken from the build
     sw = "{" + ", ".join('"%s"' % s.replace('"', "") for s in syms) + "}"
     r = vlib.tlc(ctx, "Threads", "CONSTANTS\n  NThreads = %d\n  NCalls = %d\n  SharedWritable = %s\nSPECIFICATION Spec\n"
@@ -1033,6 +1041,11 @@ def c17(ctx):
     if any(("-D" + o) in b0["make_log"] for o in ("RFC6531_FOLLOW_RFC5322", "RFC6531_FOLLOW_RFC20", "LABELS_ALLOW_UNDERSCORE")):
         add_violation(ctx, "C17", "default build compiles with an option defined", {"log": b0["make_log"][-500:]})
     # each option alone, then the combinations: the spec is instantiated with the same options as the build
+    # per-byte sweeps and UTF-8 candidates under the two RFC6531_* options (what they change is character-specific)
+    suite_sweep(ctx, 1, optbits=1)
+    suite_sweep(ctx, 2, optbits=1)
+    suite_sweep(ctx, 1, optbits=2)
+    suite_sweep(ctx, 2, optbits=2)
     plan = [(1, [("local", 2, 5 if q else 6), ("email", 2, 0)]),
             (2, [("local", 5, 4 if q else 5), ("local", 6, 5 if q else 6), ("local", 2, 5), ("email", 2, 0)]),
             (4, [("host", 2, 0), ("host", 1, 5 if q else 7), ("email", 2, 0)]),
@@ -1072,9 +1085,11 @@ def c18(ctx):
     r_t2 = tlc_ok(ctx, "MC_Tld", cfg({"Part": 2, "RowMod": 8, "RowRem": 0}))
     r_t1 = tlc_ok(ctx, "MC_Tld", cfg({"Part": 1, "RowMod": 16 if q else 4, "RowRem": ctx.seed % 4}))
     r_p = tlc_ok(ctx, "MC_Policy", "CONSTANTS\n  Part = 1\nINIT Init\nNEXT Next\nINVARIANT Inv\nCHECK_DEADLOCK FALSE\n")
+    r_i2 = tlc_ok(ctx, "MC_Idn", "CONSTANTS\n  Part = 2\n  MaxLabels = 1\nINIT Init\nNEXT Next\nINVARIANT Inv\nCHECK_DEADLOCK FALSE\n")
+    r_i3 = tlc_ok(ctx, "MC_Idn", "CONSTANTS\n  Part = 3\n  MaxLabels = 1\nINIT Init\nNEXT Next\nINVARIANT Inv\nCHECK_DEADLOCK FALSE\n")
     for be in ("idn", "idnkit"):
         b = build(ctx, "default", 0, be)
-        for tag, r in (("pool", r_pool), ("email", r_e), ("tld2", r_t2), ("tld1", r_t1), ("policy", r_p)):
+        for tag, r in (("pool", r_pool), ("email", r_e), ("tld2", r_t2), ("tld1", r_t1), ("policy", r_p), ("idn2", r_i2), ("idn3", r_i3)):
             res = replay(ctx, b, r["out"], "c18-%s-%s" % (tag, be))
             crash_violation(ctx, res, ["C06", "C18"])
             for v in res["viol"]:
@@ -1095,6 +1110,9 @@ def c18(ctx):
 
 def c19(ctx):
     suite_object(ctx, 5, faults=True, small=True)
+    # recorded random histories over the large pool (it holds domains of 300-400 bytes that the real converter refuses):
+    # allocation balance at every eav_free, outcome equal to a fresh object after every failure
+    suite_random_histories(ctx, 20 if ctx.quick() else 200, 200)
     if not ctx.quick():     # every libidn2 code in the model (full pool), and longer fault-free histories around the failures
         tlc_ok(ctx, "MC_Eav", EAV_CFG % ("idn2", 0, "TRUE", "FALSE"), timeout=6000)
     return finish(ctx, "fault_enumeration",
